@@ -368,9 +368,15 @@ def cases(tier, seed):
         out.append(make_extreme_bn(rng, gen_bn(rng, 5, 200)))
         out.append(make_extreme_mn(rng, gen_mn(rng, 4)))
     # the torch backend for a share of the single-query, primitive and session cases
+    pre_torch = len(out)
     for c in out:
         if c["kind"] in ("bn", "mn", "prim", "session") and rng.random() < 0.12:
             c["torch"] = True
+    # a few cases that ALWAYS reach the listed open finding "torch-backend-float32-construction" (values that float32
+    # flushes to zero, maximum not at the first index): the KNOWN-FINDING line is printed on every seed, and a change
+    # of that behaviour is noticed
+    for _ in range(3 if tier == "quick" else 10):
+        out.append(gen_f32(rng))
     na = 110 if tier == "quick" else 1300
     for i in range(na):
         if i % 3 == 2:
@@ -471,6 +477,16 @@ def make_extreme_mn(rng, c):
     c["factors"] = facs
     c["inexact"] = True
     return c
+
+
+def gen_f32(rng):
+    card = rng.choice([2, 3])
+    k = rng.choice([200, 280])
+    nums = sorted(rng.sample([1, 2, 3, 5, 7], card))           # strictly increasing: the maximum is the LAST state
+    facs = [{"vars": [0], "vals": [jf(Fraction(x, 2 ** k)) for x in nums]}]
+    return {"kind": "mn", "n": 1, "edges": [], "cards": [card], "factors": facs, "vstyle": "str",
+            "vnames": name_specs(rng, 1, "str"), "states": [state_specs(rng, card, rng.choice(["str", "intperm"]))],
+            "qseed": rng.randint(0, 10 ** 9), "inexact": True, "torch": True, "f32": True}
 
 
 def gen_update(rng, nmax, space):
@@ -1761,6 +1777,19 @@ def run_all(case, drv):
                                                             case["states"], case["qseed"]]), tags=tags)
 
 
+def not_float32_exact(case):
+    import numpy as np
+    vals = [x for d in case.get("cpds", []) for r in d["rows"] for x in r] + \
+           [x for f in case.get("factors", []) for x in f["vals"]] + list(case.get("vals", []))
+    for x in vals:
+        q = fr(x)
+        with np.errstate(all="ignore"):
+            y = float(np.float32(float(q)))
+        if y != y or y in (float("inf"), float("-inf")) or Fraction(y) != q:
+            return True
+    return False
+
+
 def run_wide(case, drv):
     from pgmpy.inference import VariableElimination, BeliefPropagation
     net = Net(case)
@@ -1808,6 +1837,12 @@ def run_case(case, drv):
             del c2["torch"]
             out = run_case(c2, drv)
             out.setdefault("tags", []).append("backend=torch")
+            if not out["ok"] and out.get("finding") is None and not_float32_exact(case):
+                # diagnosed class (reported; listed or repaired by the coordinator): under the torch backend the
+                # DiscreteFactor / TabularCPD constructors pass the values through torch.Tensor(values), i.e. float32,
+                # whatever config dtype says; inputs that float32 cannot hold exactly (here: 2^-280.., 1-2^-40) reach
+                # the engine rounded, overflowed to inf or flushed to 0.  Any other disagreement stays unlisted.
+                out["finding"] = "torch-backend-float32-construction"
             return out
         finally:
             config.set_backend("numpy")
